@@ -45,7 +45,8 @@ def topology(pos):
 POSITIONS = ['chain:S', 'chain:M', 'chain:K', 'tee:S', 'tee:K1', 'rejoin:S', 'rejoin:A', 'rejoin:K']
 INJECTIONS = [('normalize', None, 'raise'), ('init', None, 'raise'), ('init', None, 'exit'), ('setup', None, 'raise'), ('setup', None, 'exit'), ('setup', None, 'exit_exc'),
               ('process', 0, 'exit'), ('process', 1, 'exit'), ('process', 4, 'exit'), ('process', 1, 'exit_exc'), ('process', 4, 'raise'), ('process', 1, 'stop_evt'),
-              ('send', 2, 'raise'), ('shutdown', 2, 'raise'), ('shutdown', 2, 'exit'), ('fini', 2, 'raise'), ('outside', None, 'stop_evt')]
+              ('send', 2, 'raise'), ('shutdown', 2, 'raise'), ('shutdown', 2, 'exit'), ('fini', 2, 'raise'), ('outside', None, 'stop_evt'),
+              ('shutdown', 2, 'exit_exc')]     # an error exit() when the stop event is already set (the run was ending cleanly)
 
 
 def build_nodes(case):
